@@ -236,3 +236,17 @@ package tls
 //@   loop 1 invariant xmask(f.nonceMask[9], old(f.nonceMask[9]), nonce, 5, $k, len(nonce))
 //@   loop 1 invariant xmask(f.nonceMask[10], old(f.nonceMask[10]), nonce, 6, $k, len(nonce))
 //@   loop 1 invariant xmask(f.nonceMask[11], old(f.nonceMask[11]), nonce, 7, $k, len(nonce))
+
+// C35: the legacy SessionTicketKey field is turned into a ticket key only while no key set is configured; once
+// SetSessionTicketKeys (or an earlier call) installed keys, this function never adds to or replaces them, so a ticket
+// sealed under a key that is no longer configured stays rejected.
+//@ func (*Config).initLegacySessionTicketKeyRLocked
+//@   property C35
+//@   requires c != nil
+//@   requires rd: ite(c.Rand != nil, c.Rand, rand.Reader) != nil
+//@   at after call io.ReadFull#0: assume rand_ok: res1 == nil
+//@   note rand_ok: the random source delivers 32 bytes (crypto/rand does; with a failing user-supplied Config.Rand the function panics, as its message says) -- listed assumption
+//@   assume-pure HasPrefix Sprintf
+//@   note assume-pure: bytes.HasPrefix / fmt.Sprintf only read
+//@   ensures configured_keys_kept: old(len(c.sessionTicketKeys) > 0) ==> c.sessionTicketKeys == old(c.sessionTicketKeys)
+//@   ensures legacy_only_when_empty: c.sessionTicketKeys != old(c.sessionTicketKeys) ==> old(len(c.sessionTicketKeys) == 0) && len(c.sessionTicketKeys) == 1
